@@ -311,3 +311,50 @@ package dialer
 //@   dyncalls noeffect
 //@   modifies *
 //@   at call NotifyLatencyChange#1 assert a0 == update.aliveDialerGroups[$idx] && a1 == d && a2 == update.alive
+
+// recomputation after a policy switch starts from "no cached best" whatever the old and new policies are,
+// so the best under the new statistic is never compared against a value measured with the old one
+//@ func (*AliveDialerSet).recomputeSelectionStateLocked
+//@   anchorsonly
+//@   dyncalls noeffect
+//@   modifies *
+//@   at return 1 assert a.minLatency.dialer == nil && a.minLatency.sortingLatency == 3600000000000
+//@   at call snapshotLatencyForPolicy#1 assert a1 == a.CheckTyp && a2 == a.selectionPolicy && a.minLatency.dialer == nil && a.minLatency.sortingLatency == 3600000000000
+//@   at call calcMinLatency#1 assert a0 == a
+//@   ensures isMinPol(a) ==> calls("calcMinLatency") == 1
+//@   ensures !isMinPol(a) ==> calls("calcMinLatency") == 0
+
+//@ func isMinLatencyPolicy
+//@   vpure
+//@   ensures result <==> (policy == consts.DialerSelectionPolicy_MinLastLatency || policy == consts.DialerSelectionPolicy_MinAverage10Latencies || policy == consts.DialerSelectionPolicy_MinMovingAverageLatencies)
+
+// C14: every member of a constructed set carries the latency offset of its annotation (also a negative or
+// zero one); the set starts with no cached best
+//@ func NewAliveDialerSet
+//@   anchorsonly
+//@   dyncalls noeffect
+//@   modifies *
+//@   loop 1
+//@     invariant dialerToLatencyOffset != nil && fresh(dialerToLatencyOffset) && len(dialers) == len(dialersAnnotations)
+//@     invariant forall k int {dialers[k]} :: 0 <= k && k < $idx ==> has(dialerToLatencyOffset, dialers[k])
+//@     invariant $idx > 0 ==> dialerToLatencyOffset[dialers[$idx-1]] == dialersAnnotations[$idx-1].AddLatency
+//@     exit forall k int {dialers[k]} :: 0 <= k && k < len(dialers) ==> has(dialerToLatencyOffset, dialers[k])
+//@   at call NotifyLatencyChange#1 assert a0 == a && a2 == setAlive
+
+// one probe cycle ends in at most one verdict: alive only on (ok, nil); not alive only on an error that
+// is not a cancellation, wrapped or not (errors.Is); (false, nil) and cancellations change nothing
+//@ func (*Dialer).check
+//@   anchorsonly
+//@   dyncalls noeffect
+//@   modifies *
+//@   at call markAvailable#1 assert a1 == opts.networkType && a2 == bestLatency && ok && err == nil
+//@   at call markUnavailable#1 assert a1 == opts.networkType && err != nil && !stderrors.Is(err, context.Canceled)
+//@   ensures calls("markAvailable") + calls("markUnavailable") <= 1
+
+// escalation after persistent proxy failures goes through the forced failure entry point for each of the
+// six listed network types (their contents cannot be pinned across the calls: the callee may modify anything)
+//@ func (*Dialer).markUnavailableFromProxyFailure
+//@   anchorsonly
+//@   dyncalls noeffect
+//@   modifies *
+//@   at call ReportUnavailableForced#1 assert 0 <= $idx && $idx < 6
